@@ -108,7 +108,14 @@ fn render_seq_m_inline(s: &Seq, lvl: usize, out: &mut String) {
         render_p(s, lvl, out);
         out.push(')');
     } else if s.stmts.is_empty() {
-        render_tail_m(&s.tail, lvl, out);
+        match &s.tail {
+            Tail::If(..) | Tail::Match(..) => {
+                out.push('(');
+                render_tail_m(&s.tail, lvl, out);
+                out.push(')');
+            }
+            _ => render_tail_m(&s.tail, lvl, out),
+        }
     } else {
         out.push('(');
         render_m(s, lvl + 1, out);
